@@ -237,6 +237,11 @@ def check_label_template(ctx, r, cg):
                             and isinstance(st.iter.func, ast.Name) and st.iter.func.id == "enumerate" and not st.iter.args[1:] and not st.iter.keywords:
                         if isinstance(st.target.elts[0], ast.Name) and st.target.elts[0].id == e.id:
                             good = True
+                    # ... or of a comprehension / generator over the leaves (`all(check(i, leaf) for i, leaf in enumerate(leaves))`)
+                    if isinstance(st, ast.comprehension) and isinstance(st.target, ast.Tuple) and isinstance(st.iter, ast.Call) \
+                            and isinstance(st.iter.func, ast.Name) and st.iter.func.id == "enumerate" and not st.iter.args[1:] and not st.iter.keywords:
+                        if isinstance(st.target.elts[0], ast.Name) and st.target.elts[0].id == e.id:
+                            good = True
             if not good:
                 if isinstance(e, ast.Name) and e.id in fn_.params:
                     raise AnalysisError(f"C16.3: the leaf position handed to {setter.name} could not be traced beyond parameter `{e.id}` of {fn_.qualname}")
